@@ -149,11 +149,27 @@ func vfC08Run(e *vfEnv, r *vfResult, idx int, plan vfC08Plan) { //nolint:cyclop,
 		MulticastDNSMode: MulticastDNSModeDisabled, DisconnectedTimeout: &zero, FailedTimeout: &zero,
 		HostAcceptanceMinWait: &zero, PrflxAcceptanceMinWait: &zero, SrflxAcceptanceMinWait: &zero, MaxBindingRequests: &mb, LoggerFactory: vfQuietLogger(),
 	}
+	// a relay candidate through a fake TURN client: its control socket and client must be gone after Close as well
+	withRelay := rng.IntN(3) == 0
+	var turnTally *vfTurnTally
+	if withRelay {
+		turi, _ := stun.ParseURI("turn:10.255.0.9:3478?transport=udp")
+		turi.Username, turi.Password = "user", "pass"
+		cfgA.Urls = append(cfgA.Urls, turi)
+		cfgA.CandidateTypes = append(cfgA.CandidateTypes, CandidateTypeRelay)
+		turnTally = &vfTurnTally{sw: s.sw, relayIP: "198.51.100.77"}
+		if plan.Fault == "close-error" {
+			s.sw.closeErr["relay-alloc"] = true
+		}
+	}
 	a, err := NewAgent(cfgA)
 	if err != nil {
 		r.inconclusive(1)
 
 		return
+	}
+	if turnTally != nil {
+		a.turnClientFactory = turnTally.factory
 	}
 	A := &vfSide{cfg: vfSideCfg{Name: "A"}, name: "A", a: a, sess: s, pairAddr: map[uint64]string{}, told: map[string]bool{}, filtered: map[string]bool{}}
 	s.A = A
@@ -573,6 +589,22 @@ func vfC08Run(e *vfEnv, r *vfResult, idx int, plan vfC08Plan) { //nolint:cyclop,
 	}
 	if len(st) > nStates+1 {
 		r.violation("effect-after-close:callback", fmt.Sprintf("state callbacks fired in reaction to calls on a closed agent: %v", st[nStates:]), wit)
+	}
+	// ---- the TURN client the agent created (it runs goroutines of its own in the real implementation) was shut down
+	if turnTally != nil {
+		turnTally.mu.Lock()
+		open := 0
+		for _, c := range turnTally.clients {
+			if c.closes.Load() == 0 {
+				open++
+			}
+		}
+		n := len(turnTally.clients)
+		turnTally.mu.Unlock()
+		if open > 0 {
+			r.violation("turn-client-left-after-close", fmt.Sprintf("%d of %d TURN client(s) created by the agent were not closed by Close (close at %s, fault %s)", open, n, plan.Position, plan.Fault), wit)
+		}
+		r.count("c08_turn_clients", int64(n))
 	}
 	// ---- no goroutine started by the agent keeps running (cycles cancelled by an earlier Restart may sit in a STUN read until the gather timeout)
 	B.close() // the peer goes away first, so that everything left over belongs to A
